@@ -29,7 +29,7 @@ def plans(tier):
             allones = t ^ ((1 << (b + 1)) - 1)  # differs from t at bit b AND at every lower bit (e.g. the complement key)
             ks = [t, other, allones] if (n > 2 and b >= 1) else [t, other, third]
             out.append(dict(key_size=n, default=b"" if b % 2 == 0 else b"\x07", keys=tuple(hexkey(k, n) for k in ks),
-                            values=("a", "bb") if n <= 3 else ("a",), track=hexkey(t, n), probes=(), quiet=2))
+                            values=(("a", "bb", "") if n <= 2 and b % 2 else ("a", "bb")) if n <= 3 else ("a",), track=hexkey(t, n), probes=(), quiet=2))
     if tier == "thorough":
         t = 0x40
         ks = [t] + [t ^ (1 << b) for b in range(8)]
